@@ -35,5 +35,10 @@ CLAIMED = {
   note="Bounds: k = 2..3 (quick) / 4 (thorough) ready endpoints, N <= 2k+1 picks, cursor any uint64 below 2^64-16; any-order: k=2 N<=6/8, k=3 N<=3/4. Sequential semantics: concurrent pickers are not decided here (atomic.AddUint64 is a single event; stated). sync.Map is a reference model.",
   technique="symbolic execution of go/ssa + SMT (QF_BV)",
   ref="9/C14"),
+ "C09": dict(
+  text="Bounded symbolic model checking of the real remote wrappers (remoteWrapper.Sync/newFlowControl, maxInflightWrapper.SetLimit/Resize, localWrapper.Sync, NewFlowControl with the real golib max-in-flight bucket and client-go/x-time-rate constructors): for every sequence of server answers within the bounds the limit installed in the innermost limiter (the single gate of every TryAcquire path) is within [0, configured global limit], valid quotas take effect, an error reply keeps at least the local limit.",
+  note="Bounds: 0 <= local <= global (int32), k <= 3 allocation answers / 2-3 acquire replies with arbitrary int32 values, error kinds and request times; meter readings arbitrary within the enforced limit (induction hypothesis). Outside: the acquire worker goroutines/channels and the wait protocol (liveness, latency), token-bucket count wrapper and readiness hysteresis (not yet encoded).",
+  technique="symbolic execution of go/ssa + SMT (QF_BV)",
+  ref="9/C09"),
 }
 NOT_APPLICABLE = {}
